@@ -96,11 +96,8 @@ uint32_t COTmrGetTicks(CO_TMR *tmr, uint16_t time, uint32_t unit)
     if (freq == 0u) {
         ticks = 0u;
     } else {
-        if (freq <= unit) {
-            ticks = (uint32_t)time / (unit / freq);
-        } else {
-            ticks = (uint32_t)time * (freq / unit);
-        }
+        /* multiply first: stays exact when neither value divides the other */
+        ticks = (uint32_t)(((uint64_t)time * (uint64_t)freq) / (uint64_t)unit);
     }
     return (ticks);
 }
